@@ -33,11 +33,11 @@ def _copy_tree(src_root: Path, dst_root: Path) -> None:
             shutil.copy2(src_root / f, dst_root / f)
 
 
-def _failing_keys(prop: str, root: Path) -> tuple[set[str], str | None]:
+def _failing_keys(prop: str, root: Path, tier: str = "quick") -> tuple[set[str], str | None]:
     mod = importlib.import_module(f"sa.checks.{prop.lower()}")
     try:
         repo = Repo(root)
-        ctx = Context(prop, repo, "quick", 0)
+        ctx = Context(prop, repo, tier, 0)
         mod.run(ctx)
         keys = {i.key for i in ctx.instances if not i.ok}
         return keys, (("analysis-error: " + "; ".join(ctx.floor_failures)) if ctx.floor_failures else None)
@@ -48,7 +48,7 @@ def _failing_keys(prop: str, root: Path) -> tuple[set[str], str | None]:
 
 
 def _run_one(args) -> dict:
-    prop, src_root, name, edits, baseline = args
+    prop, src_root, name, edits, baseline, tier = args
     tmp = Path(tempfile.mkdtemp(prefix=f"sa-mut-{prop}-"))
     try:
         _copy_tree(Path(src_root), tmp)
@@ -56,11 +56,19 @@ def _run_one(args) -> dict:
             from .twin import rewrite_tree
 
             rewrite_tree(tmp, rename=(name == "twin-rename"))
-            keys, err = _failing_keys(prop, tmp)
+            keys, err = _failing_keys(prop, tmp, tier)
             new = sorted(keys - set(baseline))
             gone = sorted(set(baseline) - keys)
             return {"mutant": name, "status": "missed" if not new and not gone and not err else "noisy", "new_keys": new[:4], "gone_keys": gone[:4], "detail": err or ""}
         applicable = True
+        if isinstance(edits, str):
+            # a seeded change kept under /verif/seeded/<id>/patch.diff (written by an independent agent)
+            import subprocess
+
+            r = subprocess.run(["git", "apply", "--whitespace=nowarn", edits], cwd=tmp, capture_output=True, text=True)
+            if r.returncode != 0:
+                return {"mutant": name, "status": "not-applicable", "new_keys": [], "detail": r.stderr[:200]}
+            edits = []
         for rel, old, new in edits:
             p = tmp / rel
             if not p.exists():
@@ -82,7 +90,7 @@ def _run_one(args) -> dict:
                     _ast.parse((tmp / rel).read_text())
                 except SyntaxError:
                     return {"mutant": name, "status": "invalid-mutant", "new_keys": []}
-        keys, err = _failing_keys(prop, tmp)
+        keys, err = _failing_keys(prop, tmp, tier)
         new = sorted(keys - set(baseline))
         if err and not new:
             return {"mutant": name, "status": "analysis-error", "detail": err, "new_keys": []}
@@ -96,11 +104,25 @@ def run_selftest(ctx: Context, mod) -> None:
 
     muts = MUTANTS.get(ctx.prop, [])
     baseline = sorted({i.key for i in ctx.instances if not i.ok})
-    jobs = [(ctx.prop, str(ctx.repo.root), "twin-unedited", [], baseline),
-            (ctx.prop, str(ctx.repo.root), "twin-unparse", [], baseline),
-            (ctx.prop, str(ctx.repo.root), "twin-rename", [], baseline)]
+    jobs = [(ctx.prop, str(ctx.repo.root), "twin-unedited", [], baseline, ctx.tier),
+            (ctx.prop, str(ctx.repo.root), "twin-unparse", [], baseline, ctx.tier),
+            (ctx.prop, str(ctx.repo.root), "twin-rename", [], baseline, ctx.tier)]
     for name, edits in muts:
-        jobs.append((ctx.prop, str(ctx.repo.root), name, edits, baseline))
+        jobs.append((ctx.prop, str(ctx.repo.root), name, edits, baseline, ctx.tier))
+    # seeded changes (independent agents, confirmed by a demonstration): those recorded as caught by this property
+    import json as _json
+
+    seeded_dir = Path(__file__).resolve().parent.parent / "seeded"
+    for d in sorted(seeded_dir.iterdir()) if seeded_dir.exists() else []:
+        meta_p, patch_p = d / "meta.json", d / "patch.diff"
+        if not (meta_p.exists() and patch_p.exists()):
+            continue
+        try:
+            meta = _json.loads(meta_p.read_text())
+        except ValueError:
+            continue
+        if ctx.prop in meta.get("caught_by", []):
+            jobs.append((ctx.prop, str(ctx.repo.root), f"seeded:{d.name}", str(patch_p), baseline, ctx.tier))
     workers = min(16, max(1, len(jobs)))
     with ProcessPoolExecutor(max_workers=workers) as ex:
         results = list(ex.map(_run_one, jobs))
